@@ -3,12 +3,12 @@
 
 use serde_json::json;
 use vcore::{Run, Tier};
-use vindex::engine::{self, Explore, ExploreOut, HOp, Mode, Start};
-use vindex::tfs::{self, Tfs, TfsCfg, TfsOp};
+use vindex::engine::{self, Explore, ExploreOut, HOp, Mode};
+use vindex::tfs::{self, Origin, Tfs, TfsCfg, TfsOp};
 
 struct Job {
     bucket: usize,
-    start: Option<usize>,
+    start: Origin,
     alphabet: Vec<HOp<TfsOp>>,
     depth: usize,
     dedup: bool,
@@ -19,13 +19,7 @@ fn run_job(run: &mut Run, job: &Job, deep_depth: usize, budget_s: f64) -> Explor
     let cfg = TfsCfg {
         bucket_overload_size: job.bucket,
     };
-    let (start, start_label) = match job.start {
-        None => (Start::Fresh, "fresh".to_string()),
-        Some(i) => {
-            let (name, seed) = tfs::legacy_seeds().swap_remove(i);
-            (Start::Legacy(seed), name.to_string())
-        }
-    };
+    let (start, start_label) = tfs::origin_start(job.start);
     let x = Explore::<Tfs> {
         cfg,
         start,
@@ -35,6 +29,7 @@ fn run_job(run: &mut Run, job: &Job, deep_depth: usize, budget_s: f64) -> Explor
         dedup: job.dedup,
         mode: Mode::Hist,
         deep_depth,
+        past_known: true,
     };
     engine::explore(run, "hist", &x, budget_s * 0.6, budget_s)
 }
@@ -72,19 +67,32 @@ fn main() {
 
     let full = tfs::alphabet(4, &[0, 1, 2, 3, 4, 5], &[0, 2, 5]);
     let small = tfs::alphabet(3, &[0, 1, 2, 3], &[0, 2]);
+    // for the multi-bucket start states: every id of the prelude x {texts of the prelude + a
+    // disjoint one} as re-insert and as non-original removal text
+    let wide = tfs::alphabet(4, &[0, 1, 2, 3, 4, 5], &[0, 1, 2, 4, 5]);
+    let focus = tfs::alphabet(3, &[0, 1, 4], &[0, 2, 4]);
+    use Origin::*;
     let jobs: Vec<Job> = match run.tier {
         Tier::Quick => vec![
-            Job { bucket: 32, start: None, alphabet: small.clone(), depth: 2, dedup: false, share: 0.05 },
-            Job { bucket: 32, start: None, alphabet: full.clone(), depth: 3, dedup: true, share: 0.45 },
-            Job { bucket: 32, start: None, alphabet: small.clone(), depth: 4, dedup: true, share: 0.35 },
-            Job { bucket: 32, start: Some(0), alphabet: small.clone(), depth: 2, dedup: true, share: 0.10 },
+            Job { bucket: 32, start: Fresh, alphabet: small.clone(), depth: 2, dedup: false, share: 0.05 },
+            Job { bucket: 32, start: Fresh, alphabet: full.clone(), depth: 3, dedup: true, share: 0.45 },
+            Job { bucket: 32, start: Fresh, alphabet: small.clone(), depth: 4, dedup: true, share: 0.35 },
+            Job { bucket: 32, start: Legacy(0), alphabet: small.clone(), depth: 2, dedup: true, share: 0.10 },
+            Job { bucket: 40, start: Prelude(0), alphabet: focus.clone(), depth: 4, dedup: true, share: 0.10 },
+            Job { bucket: 64, start: Prelude(0), alphabet: wide.clone(), depth: 3, dedup: true, share: 0.10 },
+            Job { bucket: 40, start: Prelude(2), alphabet: wide.clone(), depth: 2, dedup: true, share: 0.10 },
+            Job { bucket: 64, start: Prelude(3), alphabet: wide.clone(), depth: 2, dedup: true, share: 0.10 },
         ],
         Tier::Thorough => vec![
-            Job { bucket: 32, start: None, alphabet: full.clone(), depth: 3, dedup: false, share: 0.08 },
-            Job { bucket: 32, start: None, alphabet: full.clone(), depth: 8, dedup: true, share: 0.45 },
-            Job { bucket: 20, start: None, alphabet: full.clone(), depth: 8, dedup: true, share: 0.17 },
-            Job { bucket: 512 * 1024, start: None, alphabet: full.clone(), depth: 8, dedup: true, share: 0.10 },
-            Job { bucket: 32, start: Some(0), alphabet: full.clone(), depth: 5, dedup: true, share: 0.10 },
+            Job { bucket: 32, start: Fresh, alphabet: full.clone(), depth: 3, dedup: false, share: 0.08 },
+            Job { bucket: 32, start: Fresh, alphabet: full.clone(), depth: 8, dedup: true, share: 0.35 },
+            Job { bucket: 20, start: Fresh, alphabet: full.clone(), depth: 8, dedup: true, share: 0.12 },
+            Job { bucket: 512 * 1024, start: Fresh, alphabet: full.clone(), depth: 8, dedup: true, share: 0.08 },
+            Job { bucket: 32, start: Legacy(0), alphabet: full.clone(), depth: 5, dedup: true, share: 0.07 },
+            Job { bucket: 40, start: Prelude(0), alphabet: wide.clone(), depth: 6, dedup: true, share: 0.10 },
+            Job { bucket: 64, start: Prelude(0), alphabet: wide.clone(), depth: 6, dedup: true, share: 0.08 },
+            Job { bucket: 40, start: Prelude(2), alphabet: wide.clone(), depth: 5, dedup: true, share: 0.06 },
+            Job { bucket: 64, start: Prelude(3), alphabet: wide.clone(), depth: 5, dedup: true, share: 0.06 },
         ],
     };
     scenario(&mut run);
@@ -130,6 +138,21 @@ fn main() {
          with the identical-repeat check and top-k = prefix of the full list for k in 0..n+1; 12 BM25 parameter sets (default, k1=0, \
          b=0, b=1, NaN, +-inf, negative, f32::MAX) over terms + 6 shapes (quick) / every depth<=2 tree (thorough); 3- and 4-word \
          searches repeated 8 times",
+    );
+    run.rule(
+        "multi-bucket start states (ops of the prelude are executed, not enumerated): three documents over the whole vocabulary \
+         inserted so that the four terms lie in >= 2 buckets (bucket_overload_size 40: two terms per bucket, 64: three), as inserted / \
+         compacted + flushed / fragmented by a document that came and went, then compacted + flushed; from these the same level-by-level \
+         search (quick: depth 4 over 30 ops, depth 3 and 2 over 57 ops incl. 5 non-original removal texts per id, one of them sharing \
+         no term with any document), so that compact -> flush -> remove(id, non-original text) -> flush + load and \
+         compacted+flushed -> two further mutations -> flush + load are inside the enumerated space",
+    );
+    run.rule(
+        "search behind the recorded finding C11/stale-posting-of-reinserted-id: a history that fails with exactly that class is \
+         evaluated once more against the adjusted reference (a LIVE document additionally contains the terms of the posting entries \
+         its earlier removal with non-original text left behind; counters, lengths and documents that are not live unchanged) and, \
+         when that agrees, is kept in the frontier; its extensions are checked against the adjusted reference (signature prefix \
+         past-known:). Counter states_behind_recorded_findings = states kept that way",
     );
     run.assume("the model tokenizes with the crate's own collect_tokens(default_tokenizer()), as the property prescribes; the tokenizer itself is trusted");
     run.assume("scoring is a function of postings, doc_tokens and total_tokens; the deep battery therefore runs once per distinct model state (model state includes the stale posting entries allowed by remove-with-non-original-text)");
